@@ -154,6 +154,8 @@ fn parse_inline_tag(tokens: &[Token]) -> Option<usize> {
             ..
         })
     ) {
+        // An unterminated tag is not a tag.
+        tokens.get(cursor)?;
         cursor += 1;
     }
 
